@@ -53,6 +53,10 @@ class World:
                     self.load("giving.gvn", p)
         except Exception:  # pragma: no cover
             pass
+        # the stdlib visitor classes are interpreted from their real source as well
+        import ast as _ast
+
+        self.load("pystd.ast", _ast.__file__)
         for name, path in (extra or {}).items():
             self.load(name, path)
 
